@@ -274,9 +274,11 @@ func vpC08_O4() {
 	}
 	proof, err := cred.CreateDisclosureProof([]int{1}, stmts, false, ctx, nonce)
 	vpAssume(err == nil)
-	// (the ungrafted proof is kept as a separate object: a proof object caches what verification
-	// derived from it, and the property is about lists as they arrive, not about objects that are
-	// altered in memory between two verifications)
+	// history: the object may have been verified (and found good) before the graft; what a
+	// verification derived from the object must not survive a change of the object
+	if vpBool("verifiedBeforeGraft") {
+		vpAssert("the honest proof verifies before the graft", ProofList{proof}.Verify([]*gabikeys.PublicKey{pk}, ctx, nonce, false, nil))
+	}
 	clean := *proof
 	clean.RangeProofs = map[int][]*rangeproof.Proof{}
 	for k, v := range proof.RangeProofs {
